@@ -65,7 +65,10 @@ type accAnnotations struct {
 		Field      string
 		Token      string
 		ConfinedTo []string `json:"confined_to"`
-		Why        string
+		// Scoped: the token is held only at the sites inside ConfinedTo; sites of the field elsewhere are
+		// allowed but get no token — they have to be protected by real locks against the token-holding sites
+		Scoped bool
+		Why    string
 	} `json:"tokens"`
 	CtorFuncs []struct {
 		Func    string
@@ -1456,10 +1459,24 @@ func (x *accExtractor) resolveRows() {
 		held := evalLS(r.ls, r.owner.eff())
 		// tokens
 		for _, t := range x.ann.Tokens {
-			if globMatch(t.Field, r.Field) {
-				held[t.Token] = lExcl
-				x.usedAnn["token "+t.Field] = true
+			if !globMatch(t.Field, r.Field) {
+				continue
 			}
+			if t.Scoped {
+				base := r.Func
+				if i := strings.Index(base, "$"); i >= 0 {
+					base = base[:i]
+				}
+				in := false
+				for _, c := range t.ConfinedTo {
+					in = in || globMatch(c, base)
+				}
+				if !in || (r.ls.fresh && base != r.Func) { // not in scope; goroutine closures never are
+					continue
+				}
+			}
+			held[t.Token] = lExcl
+			x.usedAnn["token "+t.Field] = true
 		}
 		for _, cf := range x.ann.CtorFuncs {
 			if r.Func == cf.Func && !r.ls.fresh {
@@ -1507,6 +1524,9 @@ func (x *accExtractor) emit(root string) error {
 	// token confinement: every published access of a token-protected field must sit in a listed function
 	var confinement []string
 	for _, t := range x.ann.Tokens {
+		if t.Scoped {
+			continue
+		}
 		for _, r := range x.rows {
 			if !globMatch(t.Field, r.Field) || r.Phase == "ctor" {
 				continue
